@@ -109,35 +109,45 @@ func runC18Large(o *Out) {
 			}
 		}
 	}
-	// exact search in 2.5 MiB: every occurrence once, also those that start at,
-	// just before and just after a multiple of 2^20
-	n := 5 << 19
-	seq := make([]byte, n)
-	for i := range seq {
-		seq[i] = "ac"[i%2]
-	}
+	// exact search in 9 MiB: every occurrence once -- those that start exactly at
+	// a multiple of 2^20 (first placement) and those that lie across one or end
+	// at one (second placement)
+	n := 9<<20 + 4321
 	pat := []byte("ggtcgg")
-	var want []int
-	for _, off := range []int{100, 1<<20 - 6, 1<<20 - 3, 1 << 20, 1<<20 + 1, 1<<21 - 1, 1 << 21, 1<<21 + 7, n - 6} {
-		copy(seq[off:], pat)
-	}
-	for i := 0; i+len(pat) <= n; {
-		j := bytes.Index(seq[i:], pat)
-		if j < 0 {
-			break
+	for pass, deltas := range [][]int{{0, 40}, {-3, -40, 9}, {-6, 7}} {
+		seq := make([]byte, n)
+		for i := range seq {
+			seq[i] = "ac"[i%2]
 		}
-		want = append(want, i+j)
-		i += j + 1
-	}
-	segs, ok := safe("Search in 2.5 MiB", func() []gts.Segment { return gts.Search(gts.New(nil, nil, seq), gts.New(nil, nil, pat)) })
-	if ok {
-		var got []int
-		for _, sg := range segs {
-			got = append(got, sg[0])
+		offs := []int{100, n - 6}
+		for mark := 1 << 20; mark <= 9<<20; mark += 1 << 20 {
+			for _, d := range deltas {
+				offs = append(offs, mark+d)
+			}
 		}
-		sort.Ints(got)
-		if fmt.Sprint(got) != fmt.Sprint(want) {
-			o.Violate("search-large", "Search in 2.5 MiB, hits around multiples of 2^20", fmt.Sprintf("got %v want %v", got, want))
+		for _, off := range offs {
+			copy(seq[off:], pat)
+		}
+		var want []int
+		for i := 0; i+len(pat) <= n; {
+			j := bytes.Index(seq[i:], pat)
+			if j < 0 {
+				break
+			}
+			want = append(want, i+j)
+			i += j + 1
+		}
+		name := fmt.Sprintf("Search in 9 MiB, placement %d", pass)
+		segs, ok := safe(name, func() []gts.Segment { return gts.Search(gts.New(nil, nil, seq), gts.New(nil, nil, pat)) })
+		if ok {
+			var got []int
+			for _, sg := range segs {
+				got = append(got, sg[0])
+			}
+			sort.Ints(got)
+			if len(want) != len(offs) || fmt.Sprint(got) != fmt.Sprint(want) {
+				o.Violate("search-large", name+", hits at and around multiples of 2^20", fmt.Sprintf("got %d hits %v want %d %v", len(got), got, len(want), want))
+			}
 		}
 	}
 }
